@@ -381,6 +381,8 @@ class NumProver:
             self.failed.append((label, "false"))
 
     def verdict(self, label):
+        if label == "*":
+            return dict(reproduced=bool(self.failed), detail=dict(failed=["%s: %s" % f for f in self.failed][:8], clauses=self.n))
         if label.startswith("library-precondition:"):
             # the stubbed routine was called outside its contract: on the real library that shows as wrong results
             return dict(reproduced=bool(self.failed), detail=dict(failed=["%s: %s" % f for f in self.failed][:8], clauses=self.n))
